@@ -60,33 +60,20 @@ func registerMoreIntrinsics() {
 			}
 			return p.tb.Bool(strings.Contains(s, sub))
 		},
-		// time.Time is modelled as {unix seconds, nanosecond fraction, nil}: all arithmetic on it is done here
+		// time.Time is modelled as {0, unix nanoseconds, nil}: all arithmetic on it is done here
 		"(time.Time).Sub": func(p *Path, _ *ssa.Function, a []Value) Value {
-			s1, f1 := timeParts(a[0])
-			s2, f2 := timeParts(a[1])
-			if s1.sort.K == KInt {
-				return p.tb.ISub(p.clockNsOf(s1, f1), p.clockNsOf(s2, f2))
+			x, y := timeNs(a[0]), timeNs(a[1])
+			if x.sort.K == KInt {
+				return p.tb.ISub(x, y)
 			}
-			return p.tb.Sub(p.clockNsOf(s1, f1), p.clockNsOf(s2, f2))
+			return p.tb.Sub(x, y)
 		},
 		"(time.Time).Add": func(p *Path, _ *ssa.Function, a []Value) Value {
-			s1, f1 := timeParts(a[0])
-			d := a[1].(*Term)
-			tb := p.tb
-			if s1.sort.K == KInt {
-				ns := tb.IAdd(p.clockNsOf(s1, f1), d)
-				return Struct{tb.IDiv(ns, tb.Int(1000000000)), tb.IMod(ns, tb.Int(1000000000)), Ptr(nil)}
+			x, d := timeNs(a[0]), a[1].(*Term)
+			if x.sort.K == KInt {
+				return Struct{a[0].(Struct)[0], p.tb.IAdd(x, d), Ptr(nil)}
 			}
-			if !d.IsConst() {
-				panic(p.unsupported("time.Add of a symbolic duration in BV mode"))
-			}
-			// constant duration: split into whole seconds and a fraction, carry by comparison
-			dv := d.Signed()
-			q, r := new(big.Int).DivMod(dv, big.NewInt(1000000000), new(big.Int))
-			fs := tb.Add(f1, tb.BVBig(r, 64))
-			carry := tb.Not(tb.Ult(fs, tb.BV(1000000000, 64)))
-			sec := tb.Add(tb.Add(s1, tb.BVBig(new(big.Int).And(q, maskW(64)), 64)), tb.Ite(carry, tb.BV(1, 64), tb.BV(0, 64)))
-			return Struct{sec, tb.Ite(carry, tb.Sub(fs, tb.BV(1000000000, 64)), fs), Ptr(nil)}
+			return Struct{a[0].(Struct)[0], p.tb.Add(x, d), Ptr(nil)}
 		},
 		"(time.Time).Before": func(p *Path, _ *ssa.Function, a []Value) Value {
 			return p.timeLess(a[0], a[1])
@@ -98,12 +85,10 @@ func registerMoreIntrinsics() {
 			return Str{sym: &SymStr{kind: "sprint", args: []Value{a[0]}}}
 		},
 		"(time.Time).UnixNano": func(p *Path, _ *ssa.Function, a []Value) Value {
-			s1, f1 := timeParts(a[0])
-			return p.clockNsOf(s1, f1)
+			return timeNs(a[0])
 		},
 		"(time.Time).Unix": func(p *Path, _ *ssa.Function, a []Value) Value {
-			s1, _ := timeParts(a[0])
-			return s1
+			return a[0].(Struct)[0]
 		},
 		"encoding/json.Marshal": func(p *Path, _ *ssa.Function, a []Value) Value {
 			iv := a[0].(Iface)
@@ -233,41 +218,32 @@ func (p *Path) clockTick() *Term { return p.clockNano("nano") }
 
 func (p *Path) clockNano(label string) *Term {
 	t := p.clockFresh(label, 0, 62)
-	switch {
-	case p.clockSec != nil:
-		p.assertPC(p.clockLe(p.clockNsOf(p.clockSec, p.clockFrac), t))
-	case p.clock != nil:
+	if p.clock != nil {
 		p.assertPC(p.clockLe(p.clock, t))
 	}
-	p.clock, p.clockSec, p.clockFrac = t, nil, nil
+	p.clock = t
 	return t
 }
 
-// clockNow returns a time.Time model {seconds, nanosecond fraction, nil}.
+// clockNow returns a time.Time model {unix seconds, unix nanoseconds, nil}: one more tick of
+// the nanosecond clock plus a seconds reading that is non-decreasing across readings. The two
+// are deliberately NOT tied by sec*1e9 <= ns < (sec+1)*1e9: a 64-bit multiplication by 1e9
+// stalls all three solvers (probed: unknown at 60 s), and no check relates Unix() to
+// UnixNano() of the same reading. The environment is thereby over-approximated (sound for
+// "holds"; a counterexample depending on the mismatch would fail its native replay).
 func (p *Path) clockNow(label string) Value {
 	tb := p.tb
-	sec := p.clockFresh(label+"sec", 0, 32)
-	frac := p.clockFresh(label+"frac", 1000000000, 0)
-	switch {
-	case p.clockSec != nil:
-		var lt, eq *Term
-		if sec.sort.K == KInt {
-			lt, eq = tb.ILt(p.clockSec, sec), tb.Eq(p.clockSec, sec)
-		} else {
-			lt, eq = tb.Ult(p.clockSec, sec), tb.Eq(p.clockSec, sec)
-		}
-		p.assertPC(tb.Or(lt, tb.And(eq, p.clockLe(p.clockFrac, frac))))
-	case p.clock != nil:
-		p.assertPC(p.clockLe(p.clock, p.clockNsOf(sec, frac)))
+	ns := p.clockNano(label + "ns")
+	sec := p.clockFresh(label+"sec", 0, 33)
+	if last, _ := p.extra["clocksec"].(*Term); last != nil {
+		p.assertPC(p.clockLe(last, sec))
 	}
-	p.clock, p.clockSec, p.clockFrac = nil, sec, frac
-	return Struct{sec, frac, Ptr(nil)}
+	p.extra["clocksec"] = sec
+	_ = tb
+	return Struct{sec, ns, Ptr(nil)}
 }
 
-func timeParts(v Value) (sec, frac *Term) {
-	s := v.(Struct)
-	return s[0].(*Term), s[1].(*Term)
-}
+func timeNs(v Value) *Term { return v.(Struct)[1].(*Term) }
 
 // streaming hash.Hash model: the digest is a function (real on concrete input,
 // uninterpreted otherwise) of all bytes written since the last Reset.
@@ -313,13 +289,11 @@ func (p *Path) hasherCall(op *Opaque, method string, args []Value) Value {
 }
 
 func (p *Path) timeLess(x, y Value) *Term {
-	tb := p.tb
-	s1, f1 := timeParts(x)
-	s2, f2 := timeParts(y)
-	if s1.sort.K == KInt {
-		return tb.Or(tb.ILt(s1, s2), tb.And(tb.Eq(s1, s2), tb.ILt(f1, f2)))
+	a, b := timeNs(x), timeNs(y)
+	if a.sort.K == KInt {
+		return p.tb.ILt(a, b)
 	}
-	return tb.Or(tb.Slt(s1, s2), tb.And(tb.Eq(s1, s2), tb.Slt(f1, f2)))
+	return p.tb.Slt(a, b)
 }
 
 // sync.Map: an association list per receiver (sequential semantics; under vr.Go threads
